@@ -83,6 +83,7 @@ pub uninterp spec fn fname_trail(n: FunctionName) -> Seq<Token>;     // the trai
 pub assume_specification [LocalFunction::new] (name: TokenReference) -> (r: LocalFunction) ensures n_lfun_name(&r) == name;
 pub assume_specification [FunctionDeclaration::new] (name: FunctionName) -> (r: FunctionDeclaration) ensures n_fdecl_name(&r) == name;
 // C11: what stands between the name of a function that is being defined and its `(`
+pub proof fn axiom_spaces_no_comment(t: Token, c: Config) requires token_type_of(t) == definition_space(c) ensures !is_line_comment_tok(t) { admit(); }   // class A: TokenType::spaces(n) is a Whitespace token type
 pub open spec fn definition_space(c: Config) -> TokenType { spaces_tt(if c.space_after_function_names is Always || c.space_after_function_names is Definitions { 1 } else { 0 }) }
 // lists: the values of a punctuated list, and what the formatter has to keep of them
 pub open spec fn pvals<T>(p: Punctuated<T>) -> Seq<T> { ppairs(p).map_values(|x: Pair<T>| pair_value(x)) }
@@ -243,14 +244,24 @@ impl UpdateTrailingTrivia for FunctionBody {
             Hole("FunctionName::new(formatted_names).with_method(formatted_method)", "proof { assert(name_sig(formatted_names) =~= name_sig(fname_names(*function_name))); }\n    FunctionName::new(formatted_names).with_method(formatted_method)", kind="ghost-name", why="proof hint: the two name sequences are equal item by item"),
         ]),
         Fn(FUN, "format_function_body", mode="stub", proved_in="collapse", contract="ensures census(&n_fb_block(&r)) == census(&n_fb_block(function_body)),"),
+        Fn(FUN, "append_function_definition_trivia", contract="""
+    ensures tok_of(r) == tok_of(token),
+            tok_has_single_comment(r) == tok_has_single_comment(token), tok_open(r) ==> tok_open(token),
+            !tok_has_single_comment(token) ==> tr_trail(r).len() >= 1 && token_type_of(tr_trail(r).last()) == definition_space(ctx.config), //# C11.definition_space
+            tok_has_single_comment(token) ==> r == token, //# C10.no_space_behind_line_comment
+""", edits=[
+            Hole("token.update_trailing_trivia(FormatTriviaType::Append(vec![\n            create_function_definition_trivia(ctx),\n        ]))", "{ let vx_space = create_function_definition_trivia(ctx); proof { axiom_spaces_no_comment(vx_space, ctx.config); } token.update_trailing_trivia(FormatTriviaType::Append(vec![\n            vx_space,\n        ])) }", kind="ghost-name", why="the space gets a name for the proof hint (a space token is no comment)"),
+        ]),
         Fn(FUN, "function_body_below_comment", contract="""
     ensures n_fb_block(&r) == n_fb_block(&function_body), //# C02.function_body_below_comment_same
+            tok_has_single_comment(*preceding_token) ==> fb_on_new_line(&r), //# C01.function_body_below_comment
             tok_open(*preceding_token) ==> fb_on_new_line(&r), //# C01.function_body_below_comment
 """),
         Fn(FUN, "format_local_function", contract="""
     ensures tok_of(n_lfun_name(&r)) == tok_of(n_lfun_name(local_function)), //# C02.local_function_same
             census(&n_fb_block(&n_lfun_body(&r))) == census(&n_fb_block(&n_lfun_body(local_function))), //# C02.local_function_same
-            tr_trail(n_lfun_name(&r)).len() >= 1 && token_type_of(tr_trail(n_lfun_name(&r)).last()) == definition_space(ctx.config), //# C11.definition_space
+            !tok_has_single_comment(n_lfun_name(&r)) ==> tr_trail(n_lfun_name(&r)).len() >= 1 && token_type_of(tr_trail(n_lfun_name(&r)).last()) == definition_space(ctx.config), //# C11.definition_space
+            tok_has_single_comment(n_lfun_name(&r)) ==> fb_on_new_line(&n_lfun_body(&r)), //# C01.function_body_below_comment
             tok_open(n_lfun_name(&r)) ==> fb_on_new_line(&n_lfun_body(&r)), //# C01.function_body_below_comment
 """, edits=[Hole("strip_trivia(&formatted_name).to_string().len()", "hole_usize()", why="Display width of the name")]),
         Fn(FUN, "format_function_declaration", contract="""
@@ -260,7 +271,8 @@ impl UpdateTrailingTrivia for FunctionBody {
 """, edits=[Hole("strip_trivia(&formatted_function_name).to_string().len()", "hole_usize()", why="Display width of the name")]),
         Fn(FUN, "format_anonymous_function", contract="""
     ensures census(&n_fb_block(&(*r).1)) == census(&n_fb_block(&anonymous_function.1)), //# C02.anonymous_function_same
-            tr_trail((*r).0).len() >= 1 && token_type_of(tr_trail((*r).0).last()) == definition_space(ctx.config), //# C11.definition_space
+            !tok_has_single_comment((*r).0) ==> tr_trail((*r).0).len() >= 1 && token_type_of(tr_trail((*r).0).last()) == definition_space(ctx.config), //# C11.definition_space
+            tok_has_single_comment((*r).0) ==> fb_on_new_line(&(*r).1), //# C01.function_body_below_comment
             tok_open((*r).0) ==> fb_on_new_line(&(*r).1), //# C01.function_body_below_comment
 """, edits=[Hole('const FUNCTION_LEN: usize = "function".len();', "let FUNCTION_LEN: usize = hole_usize();", why="str::len in a const: a width, used for layout only")]),
         Fn(STM, "format_do_block", contract="""
@@ -331,6 +343,7 @@ impl UpdateTrailingTrivia for FunctionBody {
     return its
 
 LABELS = {
+    "C10.no_space_behind_line_comment": dict(props=["C10"], text="append_function_definition_trivia: nothing is appended behind a token that a single line comment follows (the separating space would be trailing whitespace on the comment's line)"),
     "C02.function_body_below_comment_same": dict(props=["C02"], text="function_body_below_comment hands back the function body with the same block"),
     "C01.function_body_below_comment": dict(props=["C01", "C03"], text="a function body whose `function` keyword (anonymous function) or name (local function) is followed by a line comment starts a new line: its parameters are not printed into the comment (one call site of the D30 class, repaired)"),
     "C01.header_keyword_closed": dict(props=["C01", "C02"], text="format_while_block / format_else_if: a line comment behind the `while` / `elseif` keyword is always followed by a line break (the header goes multiline), so the condition is never printed inside the comment"),
